@@ -188,6 +188,8 @@ impl RSWide {
                 break;
             }
             hint_start += 1;
+            #[cfg(qwt_verif)]
+            crate::verif::sched_point();
         }
         position = hint_start - 1;
         // println!("selected superblock {} with rank {}", position, self.superblock_rank(position););
@@ -231,6 +233,8 @@ impl RSWide {
                 break;
             }
             hint_start += 1;
+            #[cfg(qwt_verif)]
+            crate::verif::sched_point();
         }
         position = hint_start - 1;
         // println!("selected block {} with rank0 {}", position, position * max_rank_for_block - self.superblock_rank(position));
